@@ -80,64 +80,8 @@ func runC10(p *Program, r *Result) {
 	}
 
 	// ---- R10.3
-	workFactorPattern := "" // the compiled pattern the work-factor argument is matched against
 	r.Rule("R10.3", "work factor validated against the configured maximum before scrypt.Key", 1)
-	{
-		tb := p.TB(idunwrap)
-		calls := callsTo(idunwrap, "golang.org/x/crypto/scrypt.Key")
-		if len(calls) == 0 {
-			r.Unk(idunwrap.String(), "call:scrypt.Key", "", "no scrypt.Key call found")
-		}
-		for i, c := range calls {
-			facts := tb.FactsAt(c.Block())
-			nArg := short(tb.Term(c.Common().Args[2]).String())
-			// N must be 1 << Atoi(X).0
-			const pre, suf = "(1 << strconv.Atoi(", ").0)"
-			if !strings.HasPrefix(nArg, pre) || !strings.HasSuffix(nArg, suf) {
-				r.Bad(idunwrap.String(), callKey("scrypt.Key", i), r.pos(c), "N argument is "+nArg+", expected 1 << logN with logN the result of strconv.Atoi on the work-factor argument")
-				continue
-			}
-			x := nArg[len(pre) : len(nArg)-len(suf)]
-			// the argument must have matched a package-level compiled pattern (R10.5 decides
-			// whether the pattern is the right one, whatever the variable is called)
-			_, reOK := findFact(facts, func(a Atom) bool {
-				if a.Kind != "call" || !a.Pol || a.Call.S != "(*regexp.Regexp).MatchString" || len(a.Call.Args) != 2 {
-					return false
-				}
-				re := short(a.Call.Args[0].String())
-				if !strings.HasPrefix(re, "regexp.MustCompile(") || short(a.Call.Args[1].String()) != x {
-					return false
-				}
-				workFactorPattern = re
-				return true
-			})
-			want := []string{
-				"strconv.Atoi(" + x + ").1 == nil",
-				"strconv.Atoi(" + x + ").0 <= Field(Recv.maxWorkFactor)",
-			}
-			var ws []Witness
-			missing := ""
-			for _, w := range want {
-				a, ok := findFact(facts, func(a Atom) bool { return short(a.String()) == w })
-				if !ok {
-					missing = w
-					break
-				}
-				ws = append(ws, guardWitness(p, a))
-			}
-			if !reOK && missing == "" {
-				missing = "<package-level pattern>.MatchString(" + x + ")"
-			}
-			if x != "Elem(Field(P1.Args), 1)" {
-				missing = "work factor taken from " + x + " instead of the stanza's second argument"
-			}
-			if missing != "" {
-				r.Bad(idunwrap.String(), callKey("scrypt.Key", i), r.pos(c), "key derivation is not dominated by: "+missing+"; facts: "+short(factStrings(facts)))
-			} else {
-				r.OK(idunwrap.String(), callKey("scrypt.Key", i), r.pos(c), "", ws...)
-			}
-		}
-	}
+	workFactorPattern := checkScryptWorkBound(p, r, idunwrap)
 
 	// ---- R10.4
 	r.Rule("R10.4", "the configured maximum is set only by the constructor default and the guarded setter", 2)
@@ -313,4 +257,66 @@ func scanOrSingle(p *Program, fn *ssa.Function, scan *RangeLoop, b *ssa.BasicBlo
 		}
 	}
 	return true
+}
+
+// checkScryptWorkBound is rule R10.3 (shared with C14: a passphrase identity never does more
+// key-derivation work than its configured maximum allows). It returns the compiled pattern the
+// work-factor argument is matched against.
+func checkScryptWorkBound(p *Program, r *Result, idunwrap *ssa.Function) string {
+	workFactorPattern := ""
+	tb := p.TB(idunwrap)
+	calls := callsTo(idunwrap, "golang.org/x/crypto/scrypt.Key")
+	if len(calls) == 0 {
+		r.Unk(idunwrap.String(), "call:scrypt.Key", "", "no scrypt.Key call found")
+	}
+	for i, c := range calls {
+		facts := tb.FactsAt(c.Block())
+		nArg := short(tb.Term(c.Common().Args[2]).String())
+		// N must be 1 << Atoi(X).0
+		const pre, suf = "(1 << strconv.Atoi(", ").0)"
+		if !strings.HasPrefix(nArg, pre) || !strings.HasSuffix(nArg, suf) {
+			r.Bad(idunwrap.String(), callKey("scrypt.Key", i), r.pos(c), "N argument is "+nArg+", expected 1 << logN with logN the result of strconv.Atoi on the work-factor argument")
+			continue
+		}
+		x := nArg[len(pre) : len(nArg)-len(suf)]
+		// the argument must have matched a package-level compiled pattern (R10.5 decides
+		// whether the pattern is the right one, whatever the variable is called)
+		_, reOK := findFact(facts, func(a Atom) bool {
+			if a.Kind != "call" || !a.Pol || a.Call.S != "(*regexp.Regexp).MatchString" || len(a.Call.Args) != 2 {
+				return false
+			}
+			re := short(a.Call.Args[0].String())
+			if !strings.HasPrefix(re, "regexp.MustCompile(") || short(a.Call.Args[1].String()) != x {
+				return false
+			}
+			workFactorPattern = re
+			return true
+		})
+		want := []string{
+			"strconv.Atoi(" + x + ").1 == nil",
+			"strconv.Atoi(" + x + ").0 <= Field(Recv.maxWorkFactor)",
+		}
+		var ws []Witness
+		missing := ""
+		for _, w := range want {
+			a, ok := findFact(facts, func(a Atom) bool { return short(a.String()) == w })
+			if !ok {
+				missing = w
+				break
+			}
+			ws = append(ws, guardWitness(p, a))
+		}
+		if !reOK && missing == "" {
+			missing = "<package-level pattern>.MatchString(" + x + ")"
+		}
+		if x != "Elem(Field(P1.Args), 1)" {
+			missing = "work factor taken from " + x + " instead of the stanza's second argument"
+		}
+		if missing != "" {
+			r.Bad(idunwrap.String(), callKey("scrypt.Key", i), r.pos(c), "key derivation is not dominated by: "+missing+"; facts: "+short(factStrings(facts)))
+		} else {
+			r.OK(idunwrap.String(), callKey("scrypt.Key", i), r.pos(c), "", ws...)
+		}
+	}
+	return workFactorPattern
 }
